@@ -79,6 +79,9 @@ pub struct OpsRun {
     pub polls: Vec<Poll>,
     pub set_complete_idx: Option<usize>,
     pub add_after_complete_rejected: Vec<bool>,
+    /// remove_object() answered false for an object that, by the harness' own bookkeeping (added, not
+    /// removed, StopTransfer events < max_transfer_count or carousel), is still in the sender: (toi, log index)
+    pub remove_refused: Vec<(u128, usize)>,
 }
 
 fn idx(i: u16, len: usize) -> usize {
@@ -99,7 +102,7 @@ fn sample(drv: &mut SenderDriver, added: &[Added], after_none: bool) -> Sample {
 
 pub fn run_ops_probe(c: &OpCase, probe: bool) -> Result<OpsRun, String> {
     let mut drv = SenderDriver::new(&c.sender)?;
-    let mut run = OpsRun { samples: vec![], drv: SenderDriver::new(&c.sender)?, added: vec![], refused: vec![], publishes: vec![], polls: vec![], set_complete_idx: None, add_after_complete_rejected: vec![] };
+    let mut run = OpsRun { samples: vec![], drv: SenderDriver::new(&c.sender)?, added: vec![], refused: vec![], publishes: vec![], polls: vec![], set_complete_idx: None, add_after_complete_rejected: vec![], remove_refused: vec![] };
     let mut total_pkts = 0usize;
     for (n, op) in c.ops.iter().enumerate() {
         match op {
@@ -133,13 +136,28 @@ pub fn run_ops_probe(c: &OpCase, probe: bool) -> Result<OpsRun, String> {
                 }
             }
             Op::Remove(i, publish) => {
-                let listed: Vec<usize> = (0..run.added.len()).filter(|k| run.added[*k].removed_idx.is_none() && drv.sender.is_added(run.added[*k].toi)).collect();
+                // candidates come from the harness' own bookkeeping, not from flute's is_added(): added,
+                // not removed, and not finished according to the StopTransfer events observed so far
+                let mut stops: std::collections::BTreeMap<u128, u32> = Default::default();
+                for r in &drv.log {
+                    if let RecKind::Stop(t) = &r.kind {
+                        *stops.entry(*t).or_insert(0) += 1;
+                    }
+                }
+                let listed: Vec<usize> = (0..run.added.len())
+                    .filter(|k| {
+                        let a = &run.added[*k];
+                        a.removed_idx.is_none() && (a.spec.carousel.is_some() || *stops.get(&a.toi).unwrap_or(&0) < a.spec.max_transfer_count.max(1))
+                    })
+                    .collect();
                 if !listed.is_empty() {
                     let k = listed[idx(*i, listed.len())];
                     let toi = run.added[k].toi;
                     if drv.remove(toi) {
                         run.added[k].removed_idx = Some(drv.log.len() - 1);
                         run.added[k].removed_time = Some(drv.now);
+                    } else {
+                        run.remove_refused.push((toi, drv.log.len() - 1));
                     }
                     if *publish && c.sender.full_fdt {
                         let r = drv.publish();
